@@ -20,8 +20,10 @@ CLAIMS["C02"] = {
             "row-constant / unit weights, the solver shows each entry of inf_retis equals W_ij*perm(minor)/perm(W_idle) (a polynomial "
             "identity against an independent Leibniz permanent), zero on busy rows/columns and where W is zero, rows and columns sum to "
             "one, the repo's own assertions cannot fire, and quick_prob == permanent_prob == the ratio on row-constant blocks. "
-            "Row-rescaling invariance is a corollary of the identity holding for all positive weights. Bounded: larger systems outside.",
-    "design_ref": "DESIGN.md section 3 C02 (H02)",
+            "Row-rescaling invariance is a corollary of the identity holding for all positive weights. In addition (HRX subset, k <= 3(4)): "
+            "after every scheduler call of the inductive step / BMC the probability matrix the scheduler keeps cached equals "
+            "inf_retis of the current state (no stale matrix is used for the next pick or fraction update). Bounded: larger systems outside.",
+    "design_ref": "DESIGN.md section 3 C02 (H02, HRX)",
     "note": "exact real arithmetic stands for longdouble; staircase family only (holes excluded as find_blocks documents); random_prob "
             "(blocks > 12) outside; np facade + z3 trusted",
     "technique": TECH,
@@ -42,7 +44,9 @@ CLAIMS["C09"] = {
             "add_to_path. For every feasible outcome pattern the solver shows: accept <=> status ACC; an accepted path is valid in its "
             "ensemble (independent predicate), time-ordered, contains the shooting point, has non-zero own weight; a rejection leaves "
             "the old path's frames untouched; shooting accepts exactly when the natural trial is valid, within the limit and "
-            "draw <= n_old/n_new; shooting points are never end points. Bounded by path length / limit (stated in evidence).",
+            "draw <= n_old/n_new; shooting points are never end points; load ('ld') paths are exempt from the acceptance "
+            "draw while restored ('re') and generated paths are not; a wire-fencing trial with zero high-acceptance weight is rejected. "
+            "Bounded by path length / limit (stated in evidence).",
     "design_ref": "DESIGN.md section 3 C09 (H09)",
     "note": "engine obeys the C12 contract (script engine stub, real add_to_path); position-dependent order parameter (kick modelled "
             "by a fresh value); floats as reals, int() as exact floor; end frames exactly on an interface accepted (convention clash "
@@ -57,8 +61,9 @@ CLAIMS["C11"] = {
             "with old [0-] frames -2,-1, both valid in their ensembles and time-ordered; accept <=> ACC; old paths untouched; a second "
             "swap restores both order sequences (and is accepted whenever the originals fit the limit); the exponent handed to exp "
             "equals beta0*dV0-beta1*dV1 as a polynomial identity and the energy test passes <=> u <= min(1,exp(.)); a [0-] path that "
-            "ended left is rejected with zero propagations. Bounded: old paths 3..4 frames (5 thorough), limit <= 5 (6).",
-    "design_ref": "DESIGN.md section 3 C11 (H11)",
+            "ended left is rejected with zero propagations. HRX subset: a zero swap re-issued after a restart keeps the "
+            "([0-],[0+]) order of ensembles and paths whatever the path numbers are. Bounded: old paths 3..4 frames (5 thorough), limit <= 5 (6).",
+    "design_ref": "DESIGN.md section 3 C11 (H11, HRX)",
     "note": "LineEngine stub (C12 contract, reversible dynamics) with the real add_to_path; exp as an arbitrary positive value; no "
             "old-path frame exactly on lambda_0; shared tis_set; z3 trusted",
     "technique": TECH,
@@ -91,7 +96,8 @@ CLAIMS["C05"] = {
     "text": "Same inductive step / BMC: the vector handed to rgen.choice is finite, non-negative and sums to one (no division by zero); "
             "sort_trajstate terminates (swap counter + cycle detection) and leaves every idle path where its weight is non-zero; the idle "
             "block keeps a perfect matching; live paths distinct, path numbers never reused; the restart file written at that moment "
-            "(real tomli_w/tomllib) loads into a fresh REPEX_state without tripping add_traj's assertion. k <= 4 (5 thorough).",
+            "(real tomli_w/tomllib) loads into a fresh REPEX_state without tripping add_traj's assertion; after such a restart one re-issued job finishes on "
+            "the restarted state and the same obligations (and a restart file listing exactly the jobs then in flight) hold. k <= 4 (5 thorough).",
     "design_ref": "DESIGN.md section 3 C03-C05 (HRX)", "note": HRXNOTE, "technique": TECH_HRX,
 }
 CLAIMS["C14"] = {
@@ -110,7 +116,8 @@ CLAIMS["C06"] = {
     "text": "Partial (state / stream round trip; byte identity of files is outside). HRX: for every state reached in the inductive "
             "step / BMC the configuration captured by write_toml, sent through the real tomli_w/tomllib and loaded into a fresh "
             "REPEX_state reproduces slot order, weight matrix and fractions, and the initiation loop re-issues exactly the in-flight "
-            "(ensemble, path) pairs, re-locks the same ensembles and keeps them on record for the next restart file. H07: with a "
+            "(ensemble, path) pairs, re-locks the same ensembles and keeps them on record for the next restart file; when one re-issued job then finishes, the "
+            "locked list and the next restart file list exactly the jobs still in flight. H07: with a "
             "symbolic seed, after 0..2 chained restarts the scheduler stream (identity and position) is restored and, with one worker, "
             "the stream of allocation j equals f(seed, j) independent of where the stops were.",
     "design_ref": "DESIGN.md section 3 C06", "note": HRXNOTE + "; SeedSequence/BitGenerator model validated against numpy; byte identity of data/restart/order files, decimal formatting, real engines and load_path from disk are outside",
@@ -161,7 +168,8 @@ CLAIMS["C20"] = {
             "rewrite rule); sqrt/arctan2 kept exact (fresh variable with rule / opaque pair). For every feasible wrap pattern the "
             "solver shows translation, image-shift and rotation invariance as identities of exact rational expressions, sign change "
             "of velocity-type and invariance of position-type parameters under velocity reversal, equal results for 3- and 9-component "
-            "boxes, |minimum image| <= L/2 and whole-box corrections, and that calculate() leaves pos/vel/box element-wise untouched. "
+            "boxes, |minimum image| <= L/2 and whole-box corrections, that calculate() leaves pos/vel/box element-wise untouched, and that the engines' calculate_order hands the frame's "
+            "own box (not one the System carried before) to the order parameter. "
             "Bounded as stated in the evidence (puckering with one symbolic atom at a time).",
     "design_ref": "DESIGN.md section 3 C20 (H20)",
     "note": "exact reals for floats; orthogonal boxes; ties |d| = L/2 and degenerate geometries excluded; polynomials above degree 1 are "
@@ -177,7 +185,7 @@ CLAIMS["C16"] = {
             "normal draws (1..2 atoms; 3 thorough): one normal draw from the engine stream with loc 0 and sigma_i^2*m_i == kB*T as a "
             "polynomial identity (sqrt kept exact), written velocities == draws/unit-factor, zero total momentum exactly when requested "
             "and untouched otherwise, positions/box/atom identities preserved, kin_new == sum(m v^2)/2 of what was written, dek == "
-            "kin_new-kin_old (inf without old energy), the source frame unchanged, constants within 1e-5 of an independent CODATA table.",
+            "kin_new-kin_old with kin_old in the engine's own units whatever kinetic energy the System carries (inf without old energy), the source frame unchanged, constants within 1e-5 of an independent CODATA table.",
     "design_ref": "DESIGN.md section 3 C16 (H16)",
     "note": "bare engine instances whose kb/_beta come from executing the constructor's own source lines; file layer pass-through; "
             "normal(loc, scale, size) == loc + scale * standard normals (numpy contract); draws non-zero",
@@ -193,10 +201,12 @@ CLAIMS["C12"] = {
             "readers delivering tagged frames in nondeterministic batches: frame k references configuration k and its stored order "
             "parameter was computed from x_k, box_k, v_k with that frame's direction applied once; propagation stops at the first frame "
             "outside / at the limit; the program is killed iff still running, waited for once; a failed program raises; a completed run "
-            "returns all frames.",
+            "returns all frames. (4) the real ASE _propagate_from with fake Atoms / calculator / integrator over two consecutive "
+            "propagations: frame k is written with positions, velocities, energies and forces of configuration k (no stale calculator "
+            "results), the integrator advances once per frame after the first.",
     "design_ref": "DESIGN.md section 3 C12 (H12)",
-    "note": "process/reader/file layer are stubs with the stated contracts; ASE/TurtleMD in-process loops, the TRR reader inside "
-            "GromacsRunner and the MD programs themselves are outside",
+    "note": "process/reader/file layer are stubs with the stated contracts; ASE Atoms/calculator/dynamics are fakes with the ASE "
+            "contract; the TurtleMD in-process loop, the TRR reader inside GromacsRunner and the MD programs themselves are outside",
     "technique": TECH,
 }
 CLAIMS["C13"] = {
